@@ -72,7 +72,7 @@ class Gfa(Lines,GraphOperations,RGFA):
       if isinstance(args[0], str):
         lst = args[0].split("\n")
         # a text ending with the line terminator has no further (empty) line
-        if len(lst) > 1 and lst[-1] == "":
+        if lst[-1] == "":
           lst.pop()
       elif isinstance(args[0], list):
         lst = args[0]
